@@ -23,6 +23,9 @@ func (m *Machine) lookupIntrinsic(fn *ssa.Function) intrinsic {
 	if h, ok := m.intrinsics[name]; ok {
 		return h
 	}
+	if mk, ok := fnIntrinsics[name]; ok {
+		return mk(fn)
+	}
 	// generic instantiations: strip type args
 	if i := strings.Index(name, "["); i > 0 {
 		base := name[:i]
@@ -139,8 +142,12 @@ func builtinIntrinsics() map[string]intrinsic {
 	}
 	I[vpPkg+"Choice"] = func(m *Machine, _ *frame, a []Value) Value {
 		n := m.argInt(a[1])
-		v := m.newInput(m.argStr(a[0]), 16)
-		m.assume(m.f.Cmp(OUlt, v, m.f.Const(16, uint64(n))))
+		w := uint8(8)
+		if n > 256 {
+			w = 16
+		}
+		v := m.newInput(m.argStr(a[0]), w)
+		m.assume(m.f.Cmp(OUlt, v, m.f.Const(w, uint64(n))))
 		return m.f.Const(64, m.concretize(v))
 	}
 	I[vpPkg+"Range"] = func(m *Machine, _ *frame, a []Value) Value {
@@ -874,4 +881,33 @@ func (m *Machine) lookupMethod(t types.Type, name string) *ssa.Function {
 		}
 	}
 	return nil
+}
+
+// fnIntrinsics need the callee's signature.
+var fnIntrinsics = map[string]func(fn *ssa.Function) intrinsic{}
+
+func init() {
+	// net.ResolveXAddr(network, address): synthetic address object; Zone carries the address text.
+	resolve := func(fn *ssa.Function) intrinsic {
+		pt := fn.Signature.Results().At(0).Type()
+		return func(m *Machine, _ *frame, a []Value) Value {
+			cell := new(Value)
+			st := m.zero(deref(pt)).(Struct)
+			stt := deref(pt).Underlying().(*types.Struct)
+			for i := 0; i < stt.NumFields(); i++ {
+				if stt.Field(i).Name() == "Zone" || stt.Field(i).Name() == "Name" {
+					st[i] = a[1]
+				}
+				if stt.Field(i).Name() == "Net" {
+					st[i] = a[0]
+				}
+			}
+			*cell = st
+			return Tuple{cell, Iface{}}
+		}
+	}
+	fnIntrinsics["net.ResolveTCPAddr"] = resolve
+	fnIntrinsics["net.ResolveUDPAddr"] = resolve
+	fnIntrinsics["net.ResolveUnixAddr"] = resolve
+	fnIntrinsics["net.ResolveIPAddr"] = resolve
 }
